@@ -25,6 +25,8 @@ DEREF = {'Cudd_RecursiveDerefZdd', 'Cudd_RecursiveDeref', 'cuddDeref',
 # library calls whose result is handed over already referenced
 PRE_REFERENCED = {'Dddmp_cuddBddLoad'}
 COLLECTIONS = {'table', 'vector'}
+# functions of the wrapper that read or fill a memo table / vector
+RECURSIONS = {'_compose', '_compose_root', '_c_compose'}
 
 
 def strip_cast(e):
@@ -60,6 +62,7 @@ class State:
         self.facts = dict()
         self.owned = dict()       # collection -> statement that filled it
         self.released = set()
+        self.dead = dict()        # key -> node of the killing deref
         self.params = set(params)
         self.problems = []
 
@@ -130,6 +133,14 @@ def walk_path(path, params):
         elif kind == 'exit':
             if it[2] in ('abort',):
                 return st, None
+            node = it[1]
+            if isinstance(node, ast.Return) and node.value is not None:
+                for n2 in ast.walk(node.value):
+                    if isinstance(n2, ast.Name) and n2.id in st.dead:
+                        st.problems.append((
+                            'use-after-release', n2.id, node,
+                            f'`{n2.id}` is returned after its last '
+                            'reference was given back'))
             return st, it
     return st, None
 
@@ -141,6 +152,27 @@ def events(st, s, loopvars):
             c, 'end_col_offset', c.col_offset)))
     for c in calls:
         name = au.call_name(c)
+        # uses of a node after its last reference was given back
+        if name not in DEREF:
+            for a in c.args:
+                k = key_of(a)
+                if k in st.dead and name != '__cast__':
+                    st.problems.append((
+                        'use-after-release', k, c,
+                        f'`{au.short(c, 60)}` uses `{k}` after '
+                        f'`{au.short(st.dead[k], 50)}` gave back its last '
+                        'reference: the node (and, recursively, its '
+                        'successors) may already be dead'))
+                    st.dead.pop(k, None)
+                if isinstance(a, ast.Name) and a.id in st.released and \
+                        a.id in COLLECTIONS and name in RECURSIONS:
+                    st.problems.append((
+                        'use-after-release', a.id, c,
+                        f'`{au.short(c, 60)}` re-uses the memo `{a.id}` '
+                        'after its entries were dereferenced: a hit '
+                        'returns a node whose reference was already '
+                        'given back, and it is released a second time '
+                        'later'))
         if name in REF and c.args:
             st.add(key_of(c.args[0]), +1, c)
         elif name in DEREF and c.args:
@@ -151,7 +183,12 @@ def events(st, s, loopvars):
             if col:
                 st.released.add(col)
             else:
-                st.add(key_of(a), -1, c)
+                k = key_of(a)
+                before = st.cnt.get(k, 0)
+                st.add(k, -1, c)
+                if name.startswith('Cudd_RecursiveDeref') and \
+                        before == 1 and st.cnt.get(k, 0) == 0:
+                    st.dead[k] = c
     if isinstance(s, ast.Assign) and len(s.targets) == 1:
         t = s.targets[0]
         col = collection_of(t)
@@ -170,6 +207,7 @@ def events(st, s, loopvars):
                         f'`{k}` is overwritten while it still holds '
                         f'{st.cnt[k]} reference(s): the old node leaks'))
                 st.cnt[k] = 0
+                st.dead.pop(k, None)
                 st.facts.pop(k, None)
                 if x.id in COLLECTIONS:
                     st.owned.pop(x.id, None)
@@ -190,8 +228,10 @@ def events(st, s, loopvars):
 def check_function(R, f, rule='R-CYTS'):
     """Decide one function; returns number of exits examined."""
     fn = f.node
+    has_while = any(isinstance(n, ast.While)
+                    for n in au.walk_no_defs(fn))
     try:
-        plist = pa.function_paths(fn, limit=6000)
+        plist = pa.function_paths(fn, limit=6000, loop_twice=has_while)
     except pa.PathExplosion:
         R.undecided(rule, f.qualname, 'typestate', 'path explosion')
         return 0
